@@ -36,7 +36,7 @@ PROSE = {
  "C14": ("proof", "holds; three defects found and fixed", "`httphead` scanning, `Parameters.Parse/Option` (trusted contracts)"),
  "C15": ("proof (safety obligations)", "holds with **one open known finding** (`ReadFrame` allocates the announced length); `DebugDialer.Dial` panic found and fixed", "functions not under contract; termination only where `decreases` is given"),
  "C16": ("proof", "holds; two defects found and fixed", "byte-level cut points inside the handshake (lines are a ghost sequence); chain as black box in `Reader.Read`"),
- "C17": ("proof", "holds", "`strSelectProtocol`, extension option copies, `ReadFrom`"),
+ "C17": ("proof", "holds", "`strSelectProtocol`, the server-side extension option copies (`negotiateExtensions`), `ReadFrom`; `httphead.Parameters.Copy` is an assumed contract"),
  "C18": ("proof", "holds; three defects found and fixed", "pool internals (assumed contract of `pool.Pool`)"),
  "C19": ("**not applicable**", "—", "concurrency (§5)"),
  "C20": ("**not applicable**", "—", "goroutines, timers, deadlines (§5)"),
